@@ -323,6 +323,16 @@ def drive(watch, out, rng, spec, tier):
         if trig is not None:
             # (one trigger made of pass-through entries only: its lists hold no rich object at all)
             new = [real.trigger(author.trigger()) for _ in range(2)] + [real.trigger(author.trigger(nc=2, na=3, raw_p=1.0))]
+            # (and one that sets a NEW named switch and a new unnamed one: the save has to place both)
+            try:
+                acts = []
+                for sw in (edit_h.Obj(k="sw", name=b"gate is open", idx=None), edit_h.Obj(k="sw", name=None, idx=None)):
+                    e = author.entry("a", 13)
+                    e["args"] = [(a, (sw if v["k"] == "sw" else v)) for a, v in e["args"]]
+                    acts.append(e)
+                new.append(real.trigger({"conds": [], "acts": acts, "players": [0]}))
+            except Exception as ex:  # noqa: BLE001
+                out.notes.append("switch trigger not authored: %s" % err_class(ex))
             watch.remember("authored triggers", new)
             step("RichTrigEditor.add_triggers (tuple)", RichTrigEditor.add_triggers, tuple(new), trig)
             t2 = step("RichTrigEditor.add_triggers", RichTrigEditor.add_triggers, new, trig)
